@@ -83,8 +83,8 @@ void h_receive(void)
   /* ---- the caller parked (or found its predicate true at once). B = the session's buffer; LIN = state when the wait returned ---- */
   SyncReceiveBuffer *B = present0 ? &wbuf : &fresh;
   __CPROVER_assert(LIN.valid, "P0 the wait was reached");
-  __CPROVER_assert(present0 || (G_made == 1 && !LIN.waited ? (LIN.b.data.lo == arrived0 && LIN.b.data.hi == arrived0 && !LIN.b.closed && !LIN.b.overflow) : 1),
-                   "P1 no buffer registered: a fresh empty one is created");
+  __CPROVER_assert(present0 ? G_made == 0 : (G_made == 1 && (LIN.waited || (LIN.b.data.lo == arrived0 && LIN.b.data.hi == arrived0 && !LIN.b.hasData && !LIN.b.closed && !LIN.b.overflow))),
+                   "P1 a buffer is created exactly when none is registered, and it is empty");
   size_t n = LIN.b.data.hi - LIN.b.data.lo;
   bool peerClosed = !r.ok && r.code == TransportError_PeerClosed;
   /* drain first */
